@@ -54,6 +54,20 @@ var c11Values = []struct {
 	{"str-float", `"1.9"`, "1.9", true},
 	{"str-bool", `"true"`, "true", true},
 	{"str-empty", `""`, "", true},
+	// numeric-looking strings in every spelling a conversion routine may or may not understand
+	{"str-lead0", `"010"`, "010", true},
+	{"str-octalish", `"0644"`, "0644", true},
+	{"str-hex", `"0x1F"`, "0x1F", true},
+	{"str-bin", `"0b11"`, "0b11", true},
+	{"str-neg0", `"-0100"`, "-0100", true},
+	{"str-exp", `"1e3"`, "1e3", true},
+	{"str-plus", `"+5"`, "+5", true},
+	{"str-spaced", `" 12 "`, " 12 ", true},
+	{"str-underscore", `"1_000"`, "1_000", true},
+	{"str-big", `"9007199254740993"`, "9007199254740993", true},
+	{"str-T", `"T"`, "T", true},
+	{"str-inf", `"inf"`, "inf", true},
+	{"str-dotted", `"010.50"`, "010.50", true},
 	{"list", `[1, "a", [2.5]]`, nil, false},
 	{"map", `{"k": 1, "j": [true]}`, nil, false},
 }
